@@ -49,6 +49,17 @@ CHECKS["C14"] = {
     "explanation": "Structural over all wrapper methods: forwarding shape and symbolic counter increments on every path.",
 }
 
+CHECKS["C15"] = {
+    "module": "rules_c15",
+    "level": "other",
+    "quick_fs": ["default"],
+    "thorough_fs": ["default", "both"],
+    "technique": "MIR path rules over update/add/best_code/wrapper bodies with def-use terms: field coverage against the ADT, field<->len-function<->parameter-offset agreement, min-scan shape, Mutex-guarded single update",
+    "claim": "Shape of exactness, mergeability and thread safety: against the ADT's field list, Default zeroes, update_many accumulates len_F(n, index+off_F)*count into, add merges same-field-to-same-field, and best_code scans every field; the per-family parameter offset used when accumulating equals the one used when reporting the best code; best_code is a strict-minimum scan that replaces cost and code together and returns (code, cost); AddAssign/Add/Sum reduce to add; the wrapper performs exactly one update(v) per successful read/write (v = value read / value written), none on error, through Mutex::lock on the only field holding the statistics. Interleavings are discharged by Rust's aliasing rules plus this shape (commutative additions under one lock), not explored. Exactness of len_* itself is C06.",
+    "note": "Trusted: rustc MIR, exporter, field table of DESIGN.md appendix A.3, std Mutex contract.",
+    "explanation": "Structural: every field of the ADT is matched against the accumulate / merge / scan code on all paths (loops entered once).",
+}
+
 NOT_APPLICABLE = {
     "C17": "a bijection over all values of six integer widths is a statement about (x>>1)^-(x&1) on 2^n values: the generic body is a chain of operator-trait calls with no table, pairing, ordering or ownership structure to check; proving the identity needs bit-vector reasoning (a solver) or running it, both outside static analysis (DESIGN.md section 6)",
 }
